@@ -623,7 +623,11 @@ func modelsRun(run *ev.Run, which string) {
 		code := &MS{Ty: "string", MaxLen: ip(3)}
 		holder := &MS{Ty: "object", Props: []MKV{{K: "c", V: &MS{Ref: "CodeAlias"}}, {K: "d", V: &MS{Ref: "Code"}}}}
 		fixed := []MKV{{K: "Counted", V: counted}, {K: "Elem", V: elem}, {K: "Bag", V: bag}, {K: "Items", V: itemsDef}, {K: "Ticket", V: ticket},
-			{K: "Ratio", V: ratio}, {K: "Level", V: level}, {K: "Gauge", V: gauge}, {K: "Code", V: code}, {K: "CodeAlias", V: &MS{Ref: "Code"}}, {K: "Holder", V: holder}}
+			{K: "Ratio", V: ratio}, {K: "Level", V: level}, {K: "Gauge", V: gauge}, {K: "Code", V: code}, {K: "CodeAlias", V: &MS{Ref: "Code"}}, {K: "Holder", V: holder},
+			// maps of validated primitives: a zero value (0, "", false) is a value like any other
+			{K: "Stock", V: &MS{Ty: "object", Addl: &MS{Ty: "integer", Minimum: i64p(0)}}},
+			{K: "Labels", V: &MS{Ty: "object", Addl: &MS{Ty: "string", MaxLen: ip(5)}}},
+			{K: "Flags", V: &MS{Ty: "object", Addl: &MS{Ty: "boolean"}}}}
 		if which == "C05" {
 			// named string formats (aliases of the strfmt types) used directly, through $ref, as array items and as map values;
 			// C02 leaves them out: its Lean semantics does not read formats
@@ -687,6 +691,9 @@ func modelsRun(run *ev.Run, which string) {
 			{"Gauge", map[string]interface{}{"gain": 2.0, "level": int64(2), "gains": []interface{}{1.5}}},
 			{"Bag", map[string]interface{}{"k1": map[string]interface{}{"kind": "x", "size": int64(2), "extra1": int64(7)}}},
 			{"Elem", map[string]interface{}{"kind": "x", "extra1": int64(7), "extra2": int64(8)}},
+			{"Stock", map[string]interface{}{"apples": int64(3), "pears": int64(0)}}, {"Stock", map[string]interface{}{"apples": int64(-1)}},
+			{"Labels", map[string]interface{}{"a": "", "b": "xy"}}, {"Labels", map[string]interface{}{"a": "toolong"}},
+			{"Flags", map[string]interface{}{"on": false, "off": true}},
 		}
 		if which == "C05" {
 			tom := map[string]interface{}{"type": "feline", "name": "tom", "claws": int64(3)}
